@@ -181,6 +181,12 @@ def run_manager(sysm, ops, scale, out, align=None):
             else:
                 man.molecule_correspondence[arg].end = sysm.end_molecule(arg)
             ev.append({'op': 'AddEnd', 'sp': arg})
+        elif op == 'Compare':
+            cmpf = out + '.compare.gro'
+            if os.path.exists(cmpf):
+                os.remove(cmpf)
+            man.molecule_correspondence[arg].write_comparative_gro(cmpf)
+            ev.append({'op': 'Compare', 'sp': arg, 'written': os.path.exists(cmpf)})
         elif op == 'CalcMaps':
             if align:
                 align(man)
@@ -300,6 +306,10 @@ def _work_tlc(args):
                 box = (9.0, 9.5, 10.0) if i % 3 else (9.0, 9.5, 10.0, 0.0, 0.0, 1.5, 0.0, 2.0, 2.5)
                 sysm = Sys(wd, 'in', species, beh['mols'], rng, title=['extrapolation input', '', 'a b  c ; t= 1.0'][i % 3], box=box)
                 ops = [(o[0] if o[0] != 'ExtrapolateErr' else 'Extrapolate', o[1]) for o in beh['ops']]
+                if i % 3 == 0:
+                    added = [o[1] for o in ops if o[0] == 'AddEnd']
+                    if added:
+                        ops.insert(len(ops) - 1, ('Compare', added[-1]))
                 ev, present = common.guarded(run_manager, 300, sysm, ops, float(rng.choice([0.5, 1.0, 0.2, 1.9])), os.path.join(wd, 'out.gro'))
                 if ev is None:
                     skipped += 1
@@ -349,7 +359,11 @@ def _work_random(args):
                 ops.append(('AddEnd', s))
             if with_end and rng.random() < 0.2:
                 ops.append(('Extrapolate', ''))
+            if with_end and rng.random() < 0.5:
+                ops.append(('Compare', with_end[int(rng.integers(0, len(with_end)))]))      # look at the overlap first
             ops.append(('CalcMaps', ''))
+            if with_end and rng.random() < 0.3:
+                ops.append(('Compare', with_end[0]))
             rest = [s for s in loaded if s not in with_end]
             if rest and rng.random() < 0.3:
                 ops += [('Extrapolate', ''), ('AddEnd', rest[0]), ('Extrapolate', ''), ('CalcMaps', '')]
